@@ -2734,6 +2734,8 @@ class _Run:
             return True
         if isinstance(p, (ast.Tuple, ast.List, ast.Set, ast.Dict, ast.Starred, ast.FormattedValue, ast.JoinedStr, ast.keyword)) and not isinstance(p, ast.keyword):
             return self._inert_use(p, depth + 1)
+        if isinstance(p, (ast.ListComp, ast.SetComp, ast.GeneratorExp, ast.DictComp)):
+            return True   # collected
         if isinstance(p, ast.Compare):
             return True
         if isinstance(p, ast.BoolOp) or (isinstance(p, ast.UnaryOp) and isinstance(p.op, ast.Not)):
